@@ -182,7 +182,11 @@ fn check_seq_via(cfg: &Cfg, ops: &[Op], via: Option<(usize, Via)>, out: &mut Job
         let mut t = 0usize;
         for (i, op) in ops.iter().enumerate() {
             if matches!(op, Op::Reset) {
-                // composite and hand-wired parts are reset together (fresh parts = reset parts, C04)
+                // composite and hand-wired parts are reset together (fresh parts = reset parts, C04);
+                // via position usize::MAX: the composite is transformed right before every reset()
+                if let Some((usize::MAX, v)) = via {
+                    s = apply_via(cfg, s, v);
+                }
                 s.reset();
                 w = wire(cfg);
                 m = 0.0;
@@ -215,7 +219,7 @@ fn check_seq_via(cfg: &Cfg, ops: &[Op], via: Option<(usize, Via)>, out: &mut Job
             if let Some((i, got, why)) = bad {
                 let mut v = Violation::new(PROP, cfg, &ops[..=i], "composite-differs-from-parts").obs(out2s(&got)).exp("the documented combination of separately constructed public parts".into()).det(why);
                 if let Some((at, how)) = via {
-                    v.detail.push_str(&format!(" [the composite was {} before input {}]", how.text(), at + 1));
+                    v.detail.push_str(&if at == usize::MAX { format!(" [the composite was {} right before every reset()]", how.text()) } else { format!(" [the composite was {} before input {}]", how.text(), at + 1) });
                     v.extra.insert("checkpoint".into(), format!("{}@{}", how.tag(), at));
                 }
                 out.fail(v);
@@ -390,6 +394,16 @@ pub fn run(ctx: &Ctx) -> CheckResult {
             ops.push(alpha[*first]);
             ops.extend(seq.iter().map(|&a| alpha[a as usize]));
             check_seq(cfg, &ops, &mut out);
+            // streams with reset(): also with the composite serialized + restored / copied with clone_from
+            // right before each reset
+            if !out.failed() && ops.iter().any(|o| matches!(o, Op::Reset)) {
+                for v in [Via::Serde, Via::CloneFromUsed] {
+                    check_seq_via(cfg, &ops, Some((usize::MAX, v)), &mut out);
+                    if out.failed() {
+                        break;
+                    }
+                }
+            }
             !out.failed()
         });
         out.stats.sample(|| format!("{} on all {}^{} streams starting with {}", cfg.descr(), alpha.len(), depth - 1, op2s(&alpha[*first])));
